@@ -591,6 +591,7 @@ func (kc *kernelCtx) hooks(b *Block, ts *TypeSpec, recv string, inline map[strin
 		for _, c := range lb.all("invariant") {
 			ls.Invariant = append(ls.Invariant, c.Text)
 		}
+		ls.NoExit = lb.first("noexit") != nil
 		for _, c := range lb.all("iteration") {
 			w, r := splitWord(c.Text)
 			if w == "emits" {
